@@ -904,6 +904,16 @@ class Interp:
                     h = self.num(self.ev(hi), n)
                     conds.append(sp.Le(x, h) if incl else sp.Lt(x, h))
                 return sp.And(*conds)
+        if name == "next" and not n["args"] and "Iterator::next" in (n.get("def") or ""):
+            # an iterator kept in a local and advanced by hand (`let mut it = a.iter().zip(b); let first = it.next().unwrap(); it.for_each(..)`): the local
+            # holds the sequence still to come; `next` takes its head off (the local is re-bound to a fresh list: the sequence may be a field's own storage)
+            r = n["recv"]
+            while r.get("k") == "Ref" or (r.get("k") == "Un" and r.get("op") == "Deref"):
+                r = r["e"]
+            if r.get("k") == "Local" and isinstance(self.env.get(r["id"]), list):
+                cur = self.env[r["id"]]
+                self.env[r["id"]] = list(cur[1:])
+                return Variant("Some", [cur[0]]) if cur else Variant("None")
         if name in TRANSPARENT_METHODS:
             v = self.ev(n["recv"])
             if name == "real" and hasattr(v, "atoms") and v.atoms(sp.core.function.AppliedUndef):
@@ -1099,6 +1109,28 @@ class Interp:
         return sp.true if self.bind_refutable(n["pat"], v, n) else sp.false
 
     def ev_Match(self, n):
+        # the one exact case every evaluator shares: a known field-less enum value matched against variant paths (a selector enum introduced by a
+        # refactoring, `match which { Formula::Higher => …, Formula::Lower => … }`); everything else is left to the subclasses
+        v = self.ev(n["e"])
+        if isinstance(v, Variant) and not v.args and all(a.get("guard") is None for a in n["arms"]):
+            def hit(p):
+                k = p.get("k")
+                if k == "Wild":
+                    return True
+                if k == "PPath":
+                    return (p.get("def") or "").split("::")[-1] == v.name
+                if k == "POr":
+                    alts = [hit(q) for q in p["ps"]]
+                    return None if None in alts else any(alts)
+                if k in ("PRef", "PDeref"):
+                    return hit(p["p"])
+                return None
+            for a in n["arms"]:
+                h = hit(a["pat"])
+                if h is None:
+                    break
+                if h:
+                    return self.ev(a["body"])
         raise Unsupported(n, "match")
 
     def ev_Loop(self, n):
